@@ -78,4 +78,11 @@ theorem C04_decimal_zero_mant (d : Codec.Dec) (n : Nat) (hn : 0 < n) (hd : d.man
     Codec.decIsKey d (n : Int) = false :=
   Codec.decIsKey_zero_mant_pos d n hn hd
 
+/-- the oracle raises no false alarm on the large integers of the C04 defect: every double `≥ 2^52`
+    (an integer `M·2^t`; `1<<60`, nanosecond timestamps stored as float, …) is accepted with its
+    exact integer text -/
+theorem C04_decimal_exact_int_accepted (n t : Nat) (ht : n / 2 ^ 52 = 1075 + t) (hf : n / 2 ^ 52 < 2047) :
+    Codec.decIsKey ⟨false, (2 ^ 52 + n % 2 ^ 52) * 2 ^ t, 0⟩ (n : Int) = true :=
+  Codec.decIsKey_exact_int n t ht hf
+
 end Sod.Props
